@@ -44,6 +44,7 @@ class Ctx:
         self.seed = common.seed()
         self.timer = Timer()
         self.notes = []
+        self.gen_errors = []
         self._mistune = None
 
     def rng(self, tag=""):
@@ -213,6 +214,7 @@ def main():
     breaks = []        # proof / tie / correspondence breaks (names)
     stats = {}
 
+    ctx.gen_errors = list(coq.get("gen_failed", []))
     if not coq["proof_ok"]:
         for g in coq["gen_failed"]:
             breaks.append("translator: " + g)
